@@ -101,13 +101,17 @@ Reopen ==
      ELSE IF Ev.cids # Cur.c THEN V("ReopenContent")
      ELSE UNCHANGED viol
 
+(* the tail-index stress (concdrive segStress): a read of the live tail returned something other than "not found" *)
+(* or the entry appended at that index                                                                          *)
+Anomaly == /\ Is("anomaly") /\ Adv /\ V("TailReadAnomaly") /\ UNCHANGED <<hist, closer, nread, bad, thr>>
+
 Note == /\ l <= Len(Trace) /\ Ev.ev \in {"schedule", "note"} /\ Adv /\ UNCHANGED <<hist, closer, viol, nread, bad, thr>>
 
 Finish == /\ l = Len(Trace) + 1 /\ PrintT(<<"VIOL", ToJson([v |-> viol, nobs |-> nread])>>) /\ l' = l + 1
           /\ UNCHANGED <<hist, closer, viol, nread, bad, thr>>
 
 Next == Reset \/ WOp \/ Read \/ StableEv \/ CloseEv \/ Close2 \/ PostClose \/ Goroutines \/ Handles \/ DirCheck \/ PanicEv
-        \/ Stuck \/ OpenErr \/ Reopen \/ Note \/ Finish
+        \/ Stuck \/ OpenErr \/ Reopen \/ Note \/ Anomaly \/ Finish
 Spec == Init /\ [][Next]_vars
 Accepted == TLCGet("stats").diameter = Len(Trace) + 2
 =============================================================================
